@@ -58,7 +58,9 @@ def programs(draw, max_preds=5, allow_evidence=True, allow_neg=True, allow_rec=T
             if neg_bias:
                 neg = allow_neg and bool(neg_cands) and draw(st.integers(0, 1)) == 0
             else:
-                neg = allow_neg and bool(neg_cands) and li > 0 and draw(st.integers(0, 3)) == 0
+                # (a negative literal in first position only has constants as arguments: nothing is bound yet; it
+                # gives bodies that are a bare negation, i.e. named atoms whose ground node is a negative key)
+                neg = allow_neg and bool(neg_cands) and draw(st.integers(0, 3 if li > 0 else 6)) == 0
             if neg:
                 p = draw(st.sampled_from(neg_cands))
                 args = []
@@ -174,6 +176,11 @@ def programs(draw, max_preds=5, allow_evidence=True, allow_neg=True, allow_rec=T
             else:
                 p = draw(st.sampled_from(preds))
             es.append(["evidence", ground_atom(p), draw(st.booleans()), draw(st.integers(0, 1))])
+        neg_heads = [s_[1] for s_ in prog if s_[0] == "rule" and len(s_[2]) == 1 and s_[2][0][0] and
+                     all(t[0] == "a" for t in s_[1][1])]
+        if neg_heads and draw(st.booleans()):
+            # evidence on an atom defined by a bare negation (its ground node is a negative key)
+            es.append(["evidence", draw(st.sampled_from(neg_heads)), draw(st.booleans()), draw(st.integers(0, 1))])
         conj_rules = [s_ for s_ in prog if s_[0] == "rule" and len(s_[2]) >= 2]
         if evidence_bias and conj_rules and draw(st.booleans()):
             # evidence aimed at one ground instance of a conjunctive clause: on its head, on one conjunct, and a
